@@ -132,11 +132,14 @@ def s2(ck: Check) -> None:
     clo0 = f.stmt_of(test).targets[0].id if isinstance(f.stmt_of(test), ast.Assign) and isinstance(f.stmt_of(test).targets[0], ast.Name) else None
     algebra = _avoid_algebra(fm, loop, test, cand, clo0)
     by_algebra = algebra == []
+    alg_probs = algebra or None      # the reading applies and names what is wrong: reported instead of the syntactic forms
     # (i) initial value
     init = [d for d in fm.cfg.reaching_defs(A, hdr) if d.id not in fm.cfg.loop_nodes[loop]]
     probs = []
     if by_algebra:
         pass        # the three parts are shown for the set as it is at the call (below)
+    elif alg_probs:
+        probs += alg_probs
     elif len(init) != 1 or not (isinstance(init[0].ast, ast.Assign) and isinstance(init[0].ast.value, ast.Call) and callee_name(init[0].ast.value) == "union"):
         probs.append("initial avoid set is not a union of two sets")
     else:
@@ -163,7 +166,7 @@ def s2(ck: Check) -> None:
             if isinstance(v, ast.Call) and callee_name(v) == "mk_subspace" and text(v.args[0]) == cand:
                 subs.append(n)
     tb = _tbranch(fm, loop)
-    ok = by_algebra or (bool(subs) and tn.id not in _within(fm, loop, tb, {s.id for s in subs}))
+    ok = by_algebra or alg_probs is not None or (bool(subs) and tn.id not in _within(fm, loop, tb, {s.id for s in subs}))
     ck.ob("S2", fm, f.stmt_of(test), ok, "current candidate removed from the avoid set before its test" if ok else
           "a path reaches the reachability test without removing the current candidate from the avoid set: the candidate "
           "'reaches itself' and every candidate is discarded (attractors lost)", key="subtract current")
@@ -180,12 +183,12 @@ def s2(ck: Check) -> None:
         pc = fm.pc(a)
         if clo and not logic.implies(pc, logic.Not(logic.B("none:" + clo))):
             probs.append(f"line {a.lineno}: a result is recorded although the candidate may have been refuted (closure is None)")
-        if by_algebra:
+        if by_algebra or alg_probs:
             continue
         if not unions or hdr.id in _within(fm, loop, a, {u.id for u in unions}) and not any(u.id in fm.cfg.can_reach_avoiding(a, []) for u in unions):
             probs.append(f"line {a.lineno}: the attractor found is not added to the avoid set: a later candidate inside the same "
                          f"attractor is accepted as well (two seeds for one attractor)")
-    if apps and unions and not by_algebra:
+    if apps and unions and not by_algebra and not alg_probs:
         # every accept path passes the union
         first = min(apps, key=lambda x: x.lineno)
         accept_start = next((b for b in fm.cfg.nodes if b.kind == "branch" and b.test is not None and clo and clo in text(b.test)
@@ -227,7 +230,12 @@ def s2(ck: Check) -> None:
 # and the loop body is interpreted over these descriptions until the description at the loop head is stable.
 _NONE, _GT, _GE = 0, 1, 2
 _NO, _OLD, _ALL = 0, 1, 2
-_BOTTOM = (False, _NONE, _NO)
+# Next to these lower bounds, one upper bound: may the set still hold, as plain candidate states, (E) candidates whose turn
+# is over, (C) the current one, (L) later ones?  Child motifs, found attractors and the empty set hold none; the set of all
+# candidates holds C and L before the loop and all three inside it; when the next candidate's turn starts, C moves to E and
+# L to C.  A refuted candidate that stays in the avoid set refutes the candidates of its own attractor in turn.
+_CLEAN = (False, False, False)
+_BOTTOM = (False, _NONE, _NO, (True, True, True))
 
 
 def _avoid_algebra(fm: FuncModel, loop: ast.For, test: ast.Call, cand: str, clo: str | None) -> list[str] | None:
@@ -243,9 +251,9 @@ def _avoid_algebra(fm: FuncModel, loop: ast.For, test: ast.Call, cand: str, clo:
     def const_of(e: ast.expr, at, in_loop: bool):
         k = _set_origin(fm, e, at, loop)
         if k == "ALLCANDIDATES":
-            return (False, _GE, _NO if in_loop else _ALL)
+            return (False, _GE, _NO if in_loop else _ALL, (in_loop, True, True))
         if k == "CHILDREN":
-            return (True, _NONE, _NO if in_loop else _ALL)
+            return (True, _NONE, _NO if in_loop else _ALL, _CLEAN)
         return None
 
     def ev(e: ast.expr, st: dict, at, in_loop: bool):
@@ -264,8 +272,8 @@ def _avoid_algebra(fm: FuncModel, loop: ast.For, test: ast.Call, cand: str, clo:
                     return _BOTTOM
                 if a == "NEW" or b == "NEW":
                     x = b if a == "NEW" else a
-                    return (x[0], x[1], _ALL if x[2] >= _OLD else _NO)
-                return (a[0] or b[0], max(a[1], b[1]), max(a[2], b[2]))
+                    return (x[0], x[1], _ALL if x[2] >= _OLD else _NO, x[3])
+                return (a[0] or b[0], max(a[1], b[1]), max(a[2], b[2]), tuple(p_ or q_ for p_, q_ in zip(a[3], b[3])))
             if nm == "minus" and len(e.args) == 1:
                 a = ev(e.func.value, st, at, in_loop)
                 if a == "NEW":
@@ -276,10 +284,10 @@ def _avoid_algebra(fm: FuncModel, loop: ast.For, test: ast.Call, cand: str, clo:
                 if isinstance(v_, ast.Call) and callee_name(v_) == "mk_subspace" and v_.args and text(v_.args[0]) == cand:
                     # the current candidate leaves; child motifs and attractors found earlier do not contain it as a rule,
                     # and where they do the test refutes the candidate either way
-                    return (a[0], _GT if a[1] >= _GT else _NONE, a[2])
+                    return (a[0], _GT if a[1] >= _GT else _NONE, a[2], (a[3][0], False, a[3][2]))
                 return _BOTTOM
             if nm == "mk_empty_colored_vertices":
-                return (False, _NONE, _NO if in_loop else _ALL)
+                return (False, _NONE, _NO if in_loop else _ALL, _CLEAN)
             if nm == "copy" and not e.args:
                 return ev(e.func.value, st, at, in_loop)
         c = const_of(e, at, in_loop)
@@ -287,7 +295,8 @@ def _avoid_algebra(fm: FuncModel, loop: ast.For, test: ast.Call, cand: str, clo:
 
     def meet(a, b):
         keys = set(a) & set(b)
-        return {k: (a[k][0] and b[k][0], min(a[k][1], b[k][1]), min(a[k][2], b[k][2])) for k in keys}
+        return {k: (a[k][0] and b[k][0], min(a[k][1], b[k][1]), min(a[k][2], b[k][2]), tuple(p_ or q_ for p_, q_ in zip(a[k][3], b[k][3])))
+                for k in keys}
 
     class Unsupported(Exception):
         pass
@@ -304,7 +313,7 @@ def _avoid_algebra(fm: FuncModel, loop: ast.For, test: ast.Call, cand: str, clo:
         return None
 
     def event(st: dict) -> dict:
-        return {k: (v[0], v[1], _OLD if v[2] == _ALL else _NO) for k, v in st.items()}
+        return {k: (v[0], v[1], _OLD if v[2] == _ALL else _NO, v[3]) for k, v in st.items()}
 
     def run(stmts: list[ast.stmt], st: dict, in_loop: bool, pending: list) -> list[tuple[str, dict]]:
         """pending[0] is True between the call and the test that tells whether a closure was found"""
@@ -388,7 +397,8 @@ def _avoid_algebra(fm: FuncModel, loop: ast.For, test: ast.Call, cand: str, clo:
                 if kd in ("fall", "continue"):
                     # the next candidate's turn: "later than the current one" now includes the new current one; an
                     # attractor that was found and not taken in stays missing
-                    y = {k: (v[0], _GE if v[1] == _GT else v[1], _ALL if v[2] == _ALL else _NO) for k, v in x.items()}
+                    y = {k: (v[0], _GE if v[1] == _GT else v[1], _ALL if v[2] == _ALL else _NO, (v[3][0] or v[3][1], v[3][2], v[3][2]))
+                         for k, v in x.items()}
                     nxt = meet(nxt, y)
             if nxt == head:
                 break
@@ -411,6 +421,9 @@ def _avoid_algebra(fm: FuncModel, loop: ast.For, test: ast.Call, cand: str, clo:
             probs.append("the candidates that have not been tested yet are not part of the avoid set")
         if v[2] != _ALL:
             probs.append("an attractor found for an earlier candidate is not part of the avoid set")
+        if v[3][0] and v[0] and v[1] != _NONE:
+            probs.append("a candidate that was refuted earlier can still be in the avoid set when a later candidate is tested: two "
+                         "candidates of one attractor refute each other and the attractor is left without a seed")
     return sorted(set(probs))
 
 
@@ -463,6 +476,11 @@ def s3(ck: Check) -> None:
                 return None
 
             pc = fm.pc(e.cfgn, atomize=atomize)
+            # `seeds = candidates; node[...] = seeds`: the conditions speak about the list under its first name
+            sd_ = fm.single_def(v, e.cfgn)
+            if sd_ and isinstance(sd_[1], ast.Name) and \
+                    {d.id for d in fm.cfg.reaching_defs(sd_[1].id, e.cfgn)} == {d.id for d in fm.cfg.reaching_defs(sd_[1].id, sd_[0])}:
+                v = sd_[1].id
             L = f"len({v})"
             exp = logic.B(f"T:FIELD<self|{node_p}|expanded>")
             ref = logic.Or(logic.Eq(L, "0"), logic.And(logic.Or(logic.Not(exp), logic.B("MIN")), logic.Eq(L, "1")))
@@ -721,6 +739,33 @@ def _source_sccs_closed(prog) -> bool:
     return True
 
 
+def _list_expr_closed(prog, fm: FuncModel, v, d, depth):
+    """the list expression `v` is made of other lists of closed sets: a name, either arm of a conditional expression, a
+    sorted/list/tuple copy, or a selection `[x for x in xs if ...]`.  None: not of this shape."""
+    if depth > 20:
+        return False, "too deep"
+    if isinstance(v, ast.Name):
+        return _list_of_closed(prog, fm, v.id, d, depth + 1)
+    if isinstance(v, ast.IfExp):
+        for br in (v.body, v.orelse):
+            r = _list_expr_closed(prog, fm, br, d, depth + 1)
+            if r is None:
+                return False, ""
+            if not r[0]:
+                return r
+        return True, ""
+    if isinstance(v, ast.Call) and callee_name(v) in ("sorted", "list", "tuple", "reversed") and len(v.args) == 1 \
+            and isinstance(v.args[0], (ast.Name, ast.IfExp, ast.ListComp, ast.Call)):
+        if isinstance(v.args[0], ast.Call) and callee_name(v.args[0]) not in ("sorted", "list", "tuple", "reversed"):
+            return None
+        return _list_expr_closed(prog, fm, v.args[0], d, depth + 1)
+    if isinstance(v, ast.ListComp) and len(v.generators) == 1 and isinstance(v.generators[0].iter, (ast.Name, ast.IfExp)) \
+            and ast.dump(v.elt) == ast.dump(v.generators[0].target).replace("Store()", "Load()"):
+        # a selection of elements of another such list
+        return _list_expr_closed(prog, fm, v.generators[0].iter, d, depth + 1)
+    return None
+
+
 def _list_of_closed(prog, fm: FuncModel, name: str, at, depth) -> tuple[bool, str]:
     """`name` is a list whose elements are (tuples starting with) regulator-closed variable sets."""
     if depth > 20:
@@ -734,36 +779,10 @@ def _list_of_closed(prog, fm: FuncModel, name: str, at, depth) -> tuple[bool, st
             return False, f"`{name}` opaque"
         if is_empty_list(v):
             continue
-        if isinstance(v, ast.Name):
-            r = _list_of_closed(prog, fm, v.id, d, depth + 1)
+        r = _list_expr_closed(prog, fm, v, d, depth)
+        if r is not None:
             if not r[0]:
-                return r
-            continue
-        if isinstance(v, ast.IfExp):
-            # either branch: a list of closed sets, or a selection from one
-            okb = True
-            for br in (v.body, v.orelse):
-                if isinstance(br, ast.Name):
-                    r = _list_of_closed(prog, fm, br.id, d, depth + 1)
-                elif isinstance(br, ast.ListComp) and len(br.generators) == 1 and isinstance(br.generators[0].iter, ast.Name) \
-                        and ast.dump(br.elt) == ast.dump(br.generators[0].target).replace("Store()", "Load()"):
-                    r = _list_of_closed(prog, fm, br.generators[0].iter.id, d, depth + 1)
-                else:
-                    r = (False, f"`{name}` = `{text(br)[:40]}`")
-                if not r[0]:
-                    return r
-            continue
-        if isinstance(v, ast.Call) and callee_name(v) == "sorted" and v.args and isinstance(v.args[0], ast.Name):
-            r = _list_of_closed(prog, fm, v.args[0].id, d, depth + 1)
-            if not r[0]:
-                return r
-            continue
-        if isinstance(v, ast.ListComp) and len(v.generators) == 1 and isinstance(v.generators[0].iter, ast.Name) \
-                and ast.dump(v.elt) == ast.dump(v.generators[0].target).replace("Store()", "Load()"):
-            # a selection of elements of another such list
-            r = _list_of_closed(prog, fm, v.generators[0].iter.id, d, depth + 1)
-            if not r[0]:
-                return r
+                return (False, r[1] or f"`{name}` = `{text(v)[:40]}`")
             continue
         if isinstance(v, ast.Call) and callee_name(v) == "source_SCCs":
             if not _source_sccs_closed(prog):
